@@ -4,6 +4,7 @@ package main
 
 import (
 	"fmt"
+	"math"
 	"reflect"
 	"strconv"
 	"strings"
@@ -169,9 +170,10 @@ func implParse(p *participle.Parser[any], in string, at bool) implResult {
 }
 
 type explorer struct {
-	prop string
-	w    *hx.Worker
-	tc   g.TypeCache
+	extendedChain bool
+	prop          string
+	w             *hx.Worker
+	tc            g.TypeCache
 }
 
 func cfgStr(k int, at bool) string { return fmt.Sprintf("k=%d trailing=%v", k, at) }
@@ -190,6 +192,13 @@ func (e *explorer) runGrammar(gr *gfam.Grammar, onlyInput *string) {
 	lookaheads := lookaheads
 	if gr.Lookaheads != nil {
 		lookaheads = gr.Lookaheads
+	}
+	if (e.prop == "C01" || e.prop == "C02") && gr.Lookaheads == nil && e.extendedChain {
+		lookaheads = append(append([]int{}, lookaheads...), math.MaxInt64, -7)
+	}
+	if e.prop == "C13" && gr.Lookaheads == nil && e.extendedChain {
+		// every value the option accepts: beyond MaxLookahead, beyond 32 bits, and several "unlimited" negatives
+		lookaheads = []int{0, 1, 2, 3, participle.MaxLookahead, 1 << 32, 1<<32 + 1, math.MaxInt64, -1, -2, math.MinInt64}
 	}
 	parsers := make([]*participle.Parser[any], len(lookaheads))
 	for i, k := range lookaheads {
@@ -361,6 +370,37 @@ func families(prop string, t gfam.Tier) []*gfam.Grammar {
 	return out
 }
 
+// runLongBranch: a branch that fails only after more than MaxLookahead tokens; finite lookaheads beyond
+// that and every "unlimited" value must agree.
+type longG struct {
+	A []string `( @"a"+ "b"`
+	B []string `| @"a"+ "c" )`
+}
+
+func runLongBranch(w *hx.Worker) {
+	n := participle.MaxLookahead + 2
+	in := strings.Repeat("a", n) + "c"
+	var prevOK *bool
+	prevK := 0
+	for _, k := range []int{n + 1, 1 << 20, 1 << 33, -1, -2} {
+		p, err := participle.Build[longG](participle.Lexer(lexDef), participle.UseLookahead(k))
+		if err != nil {
+			w.Violate(hx.Violation{Key: "long-branch build", Class: "build-failed", Detail: map[string]any{"err": err.Error()}})
+			return
+		}
+		var perr error
+		pan, msg := hx.Guard(func() { _, perr = p.ParseString("", in) })
+		w.Count("evaluations", 1)
+		ok := !pan && perr == nil
+		if prevOK != nil && *prevOK && !ok {
+			w.Violate(hx.Violation{Key: fmt.Sprintf("long-branch :: type G struct { A []string `( @\"a\"+ \"b\"`; B []string `| @\"a\"+ \"c\" )` } :: in=a^%d c :: k=%d->%d", n, prevK, k), Class: "success-lost-with-more-lookahead", Detail: map[string]any{"error": fmt.Sprint(perr), "panic": msg}})
+		}
+		okc := ok
+		prevOK, prevK = &okc, k
+		w.DistinctS(fmt.Sprintf("long%d%v", k, ok))
+	}
+}
+
 func tierOf(c *hx.Ctx) gfam.Tier {
 	if c.Quick() {
 		return gfam.Quick
@@ -383,15 +423,28 @@ func plan(c *hx.Ctx) *hx.Plan {
 	for _, gr := range grs {
 		famCount[gr.Family]++
 	}
+	extra := 0
+	if c.Prop == "C13" {
+		extra = 1
+	}
 	return &hx.Plan{
-		N: len(grs),
+		N: len(grs) + extra,
 		Job: func(w *hx.Worker, i int) {
 			tc, _ := w.Local("tc", func() any { return g.TypeCache{} }).(g.TypeCache)
-			(&explorer{prop: c.Prop, w: w, tc: tc}).runGrammar(grs[i], nil)
+			if c.Prop == "C13" && i == len(grs) {
+				runLongBranch(w)
+				return
+			}
+			(&explorer{prop: c.Prop, w: w, tc: tc, extendedChain: i%3 == 0}).runGrammar(grs[i], nil)
 		},
-		Describe: func(i int) string { return grs[i].Key() },
-		Rule:     "every grammar of the listed families (all bracketings of sequence/alternation over the leaf sets, every group modifier on every composite operand, field-kind schemes) built as a real Go struct type via reflect.StructOf and participle.Build; every token string over the family's alphabet up to its length bound; every lookahead in {0,1,2,3,MaxLookahead,unlimited} x AllowTrailing {off,on}. evaluations = real Parse calls; each is compared with the reference interpreter (C01/C02/C10/C11) or with the same input at the next smaller lookahead (C13). distinct_nontrivial = distinct accepted ASTs (rendered). states = evaluations, transitions = reference-interpreter node evaluations",
-		Bounds:   map[string]any{"families": famCount, "lookaheads": lookaheads, "allow_trailing": []bool{false, true}},
+		Describe: func(i int) string {
+			if i >= len(grs) {
+				return "long-branch"
+			}
+			return grs[i].Key()
+		},
+		Rule:   "every grammar of the listed families (all bracketings of sequence/alternation over the leaf sets, every group modifier on every composite operand, field-kind schemes) built as a real Go struct type via reflect.StructOf and participle.Build; every token string over the family's alphabet up to its length bound; every lookahead in {0,1,2,3,MaxLookahead,unlimited} x AllowTrailing {off,on}. evaluations = real Parse calls; each is compared with the reference interpreter (C01/C02/C10/C11) or with the same input at the next smaller lookahead (C13). distinct_nontrivial = distinct accepted ASTs (rendered). states = evaluations, transitions = reference-interpreter node evaluations",
+		Bounds: map[string]any{"families": famCount, "lookaheads": lookaheads, "allow_trailing": []bool{false, true}},
 		Assume: []string{
 			"token stream handed to the reference semantics is the output of the real Parser.Lex",
 			"grammars with nullable alternatives / repetition bodies / union members, nested captures, and cases in which the library's own 'did not progress' diagnostic applies are out of domain (counted)",
